@@ -74,6 +74,7 @@ func (cs *callbacks) Raw() *processor {
 
 func (p *processor) Execute(db *DB) *DB {
 	// call scopes
+	callerStmt := db.Statement
 	for len(db.Statement.scopes) > 0 {
 		db = db.executeScopes()
 	}
@@ -143,6 +144,12 @@ func (p *processor) Execute(db *DB) *DB {
 	if !stmt.DB.DryRun {
 		stmt.SQL.Reset()
 		stmt.Vars = nil
+		if callerStmt != stmt {
+			// a scope made the operation continue on another statement: the SQL the
+			// caller prepared (Exec, Raw) must not stay behind on the caller's own
+			callerStmt.SQL.Reset()
+			callerStmt.Vars = nil
+		}
 	}
 
 	if resetBuildClauses {
